@@ -40,12 +40,12 @@ func ScanRepo() (map[string]*ScannedBody, error) {
 	sort.Strings(files)
 	mut := os.Getenv("VERIF_MUTANT")
 	fset := token.NewFileSet()
-	methods := map[string]map[string]bool{}    // type -> method names
-	typeFile := map[string]string{}            // type -> file
-	hasVersion := map[string]bool{}            // type has field Version
-	fileGate := map[string]int{}               // file -> max gate
-	methodGate := map[string]int{}             // receiver type -> max gate inside its methods
-	uses := map[string]map[string]bool{}       // type -> types named in its struct fields
+	methods := map[string]map[string]bool{} // type -> method names
+	typeFile := map[string]string{}         // type -> file
+	hasVersion := map[string]bool{}         // type has field Version
+	fileGate := map[string]int{}            // file -> max gate
+	methodGate := map[string]int{}          // receiver type -> max gate inside its methods
+	uses := map[string]map[string]bool{}    // type -> types named in its struct fields
 	for _, f := range files {
 		if strings.HasSuffix(f, "_test.go") {
 			continue
